@@ -209,7 +209,8 @@ def solve_eigen(A: spmatrix,
 
     if x is not None and I is not None:
         L, X = solver(A, M, **kwargs)
-        y = np.tile(x.copy()[:, None], (1, X.shape[1]))
+        y = np.tile(x.copy()[:, None], (1, X.shape[1])).astype(
+            np.result_type(x, X))
         if isinstance(I, tuple):
             np.add.at(y, I[0], np.array([I[1](x) for x in X.T]).T)
         else:
